@@ -333,6 +333,9 @@ func (e *bndEngine) tryProve(p *prover, ob bndOb) string {
 	}
 	for _, g := range goals {
 		ok, decided := entails(p.facts, g.g)
+		if !ok && p.minmaxCases(g.g) {
+			ok = true
+		}
 		if !ok {
 			d := "cannot prove " + g.why + " for " + ob.Expr
 			if !decided {
@@ -342,6 +345,38 @@ func (e *bndEngine) tryProve(p *prover, ob bndOb) string {
 		}
 	}
 	return ""
+}
+
+// minmaxCases: the goal mentions the result k of a min (max) builtin; k equals one of its arguments, so the
+// goal holds if it holds with k replaced by each argument in turn (case split; sub-provers share the facts).
+func (p *prover) minmaxCases(goal linExpr) bool {
+	for k, def := range p.minmax {
+		coef, ok := goal.Coef[k]
+		if !ok || coef.Sign() == 0 {
+			continue
+		}
+		all := true
+		for _, a := range def.args {
+			g2 := goal.clone()
+			delete(g2.Coef, k)
+			// g2 += coef * a
+			num := coef.Num().Int64()
+			if !coef.IsInt() {
+				all = false
+				break
+			}
+			g2 = g2.add(a.scale(num))
+			if ok2, _ := entails(p.facts, g2); !ok2 {
+				all = false
+				break
+			}
+		}
+		if all && len(def.args) > 0 {
+			p.used["case split on the result of the min/max builtin (it equals one of its arguments)"] = true
+			return true
+		}
+	}
+	return false
 }
 
 // joinAbove: the nearest non-loop join block at or above b on the dominator chain.
@@ -1219,12 +1254,59 @@ func fullyPopulated(ms *ssa.MakeSlice) (bool, string) {
 		}
 		h := phi.Block()
 		ifi, ok := h.Instrs[len(h.Instrs)-1].(*ssa.If)
+		rotated := false
+		if cmp0, isB := func() (*ssa.BinOp, bool) {
+			if !ok {
+				return nil, false
+			}
+			b, isB := ifi.Cond.(*ssa.BinOp)
+			return b, isB
+		}(); !ok || !isB || cmp0.X != counter {
+			// rotated loop (range over an int): the test "counter+1 < N" stands at the bottom, the loop is entered under "0 < N"
+			ok = false
+			if first == 0 {
+				for _, e := range phi.Edges {
+					inc := asBinOp(e, token.ADD)
+					if inc == nil || inc.X != ssa.Value(phi) {
+						continue
+					}
+					for _, ref := range referrers(inc) {
+						c2, isC := ref.(*ssa.BinOp)
+						if !isC || c2.Op != token.LSS || c2.X != ssa.Value(inc) {
+							continue
+						}
+						for _, r2 := range referrers(c2) {
+							if li, isIf := r2.(*ssa.If); isIf && li.Block().Succs[0] == h {
+								// entered under 0 < N with the same N
+								for _, pred := range h.Preds {
+									if pred == li.Block() {
+										continue
+									}
+									if pi, isIf := pred.Instrs[len(pred.Instrs)-1].(*ssa.If); isIf && pred.Succs[0] == h {
+										if pc := asBinOp(pi.Cond, token.LSS); pc != nil && pathOf(pc.Y) == pathOf(c2.Y) {
+											if z, isZ := constInt(pc.X); isZ && z == 0 {
+												ifi, ok, rotated = li, true, true
+												counter = inc
+											}
+										}
+									}
+								}
+							}
+						}
+					}
+				}
+			}
+		}
 		if !ok {
 			why = "loop header does not end in the bound test"
 			continue
 		}
 		cmp, ok := ifi.Cond.(*ssa.BinOp)
 		lenOfSelf := false
+		if !ok {
+			why = "loop test is not a comparison"
+			continue
+		}
 		if lc, isC := cmp.Y.(*ssa.Call); ok && isC && isCall(lc, "builtin len") {
 			for _, a := range aliases {
 				if lc.Call.Args[0] == a {
@@ -1257,13 +1339,30 @@ func fullyPopulated(ms *ssa.MakeSlice) (bool, string) {
 			why = "loop counter does not run 0,1,2,...: " + exprString(phi, 0)
 			continue
 		}
-		body, exit := h.Succs[0], h.Succs[1]
-		// search from body avoiding the store's block (a block is straight-line: entering it executes the store)
+		var body, exit *ssa.BasicBlock
 		seen := map[*ssa.BasicBlock]bool{}
 		var stack []*ssa.BasicBlock
-		if body != st.Block() {
-			stack = append(stack, body)
-			seen[body] = true
+		if rotated {
+			// the head is the first block of the body; the exit is the false side of the bottom test
+			exit = ifi.Block().Succs[1]
+			if h != st.Block() {
+				for _, sx := range h.Succs {
+					if sx != st.Block() {
+						stack = append(stack, sx)
+						seen[sx] = true
+					}
+				}
+				if len(h.Succs) == 0 {
+					stack = nil
+				}
+			}
+		} else {
+			body, exit = h.Succs[0], h.Succs[1]
+			// search from body avoiding the store's block (a block is straight-line: entering it executes the store)
+			if body != st.Block() {
+				stack = append(stack, body)
+				seen[body] = true
+			}
 		}
 		bad := ""
 		for len(stack) > 0 && bad == "" {
@@ -1362,6 +1461,11 @@ func runOutputContract(c *Ctx, r *Rule) {
 		}
 		n++
 		okAll := true
+		if knownNonNil(factsAt(rt.Block()), func(v ssa.Value) bool { return v == rt.Results[2] }) {
+			// returned under "err != nil": whatever its origins
+			r.Check(fmt.Sprintf("Run:no-output-means-error#%d", n), true, rt.Pos(), "a return of (nil, nil, err) stands under err != nil")
+			return
+		}
 		for _, vc := range valueCases(rt.Results[2], rt.Block()) {
 			var facts []canonCond
 			for _, cd := range vc.Conds {
